@@ -104,11 +104,11 @@ PROPS = {
                     "handlers are not executed (no SVM offline): a broken row is reported with the row as witness and no-failing-input-found"],
     },
     "C14": {
-        "lean_modules": ["WP.Props.C14", "WP.Props.ZeroControl"],
+        "lean_modules": ["WP.Props.C14", "WP.Props.ZeroControl", "WP.Props.SetConstants"],
         "lean_support": [],
         "families": [("afm", 40000, 2000000), ("hist", 12000, 300000), ("afc", 10000, 300000), ("xinitaf", 6000, 300000), ("xadm", 4000, 200000)],
         "history": True,
-        "rule": "xadm: set_adaptive_fee_constants through the REAL entrypoint on an Oracle whose variables are NOT at rest (accumulator 290000 of a maximum 350000): the constants stored are those that result from the (partial) request and the variables are reset, so that an accumulator kept across a lowered maximum cannot exceed it (model: C14.reset_inv); xinitaf: initialize_pool_with_adaptive_fee through the REAL entrypoint: the created Oracle records the pool, the tier's constants (valid by an independent re-implementation of the rules) with zeroed variables and the requested trade-enable time, which is accepted only from a permissioned tier, at most 72 h ahead and 30 s back (model `initializePoolWithAdaptiveFee`, theorem C19.init_pool_af_sound); hist op xhop with a trade-enable mode: a pool whose Oracle says trading starts later refuses a swap alone and as a leg; afm: the real FeeRateManager driven directly: new() (reference update) + four loop iterations (accumulator, total rate, bounded target, advance / advance-after-skip) + major-swap update over "
+        "rule": "xadm: set_adaptive_fee_constants through the REAL entrypoint on an Oracle whose variables are NOT at rest (accumulator 290000 of a maximum 350000): the model runs its own handler (`setAdaptiveFeeConstants`: merge of the optional arguments, unchanged?, valid for the spacing?) on the stored constants and the request, the constants stored are those that result and the variables are reset, so that an accumulator kept across a lowered maximum cannot exceed it (theorems SetConstants.set_constants_infoOK, accumulator_bounded_over_histories: over every sequence of swaps and constant changes); xinitaf: initialize_pool_with_adaptive_fee through the REAL entrypoint: the created Oracle records the pool, the tier's constants (valid by an independent re-implementation of the rules) with zeroed variables and the requested trade-enable time, which is accepted only from a permissioned tier, at most 72 h ahead and 30 s back (model `initializePoolWithAdaptiveFee`, theorem C19.init_pool_af_sound); hist op xhop with a trade-enable mode: a pool whose Oracle says trading starts later refuses a swap alone and as a leg; afm: the real FeeRateManager driven directly: new() (reference update) + four loop iterations (accumulator, total rate, bounded target, advance / advance-after-skip) + major-swap update over "
                 "boundary-biased valid constants (all group sizes dividing the spacing, control factor 0 / tiny / maximal, accumulator maximum 0 / around 10000 / u32::MAX / size), arbitrary stored variables "
                 "satisfying the invariant, all elapsed-time classes around filter / decay / 3600 s, both directions, zero liquidity, targets inside / at / beyond group boundaries; "
                 "hist: half of all pool histories are adaptive-fee pools (H af): per-step rate recomputed from the pre-swap oracle state by an independent implementation of the schedule, stored reference / "
@@ -204,7 +204,7 @@ PROPS = {
                     "updates with initialized = false carry default fields (proved for next_tick_modify_liquidity_update: modify_update_canon); a fixed array would store other values verbatim"],
     },
     "C19": {
-        "lean_modules": ["WP.Props.C19", "WP.Props.Setup"],
+        "lean_modules": ["WP.Props.C19", "WP.Props.Setup", "WP.Props.SetConstants"],
         "lean_support": [],
         "families": [("mint", 40000, 2000000), ("badge", 0, 0), ("setfee", 10000, 200000), ("afc", 30000, 1000000), ("initpool", 20000, 500000), ("xadm", 8000, 400000), ("xinit", 6000, 300000), ("xinitaf", 6000, 300000), ("xini", 8000, 400000)],
         "rule": "xini: the initialisers through the REAL entrypoint, each on a fresh world: initialize_config (funded by an admin key of this build or by a stranger; default protocol fee rate in / out of bounds), initialize_fee_tier and initialize_adaptive_fee_tier (the config's fee authority signing / a stranger / nobody; the tier address free or taken by a tier of the other kind; spacing 0; fee rate in / out of bounds; the adaptive index equal to the spacing; constants valid or with one rule broken), initialize_reward and initialize_reward_v2 (reward authority signing / stranger / nobody; index = / != the lowest uninitialized one on pools with 0..3 rewards; SPL and Token-2022 mints incl. the native one with the extension sets and badge-slot variants of xinit); initialize_config_extension, initialize_token_badge / delete_token_badge (the config's token-badge authority signing / a stranger / nobody; the TOKEN_BADGE feature on / off; the extension of this or of another config) and initialize_pool v1 (order, price, tier spacing, rates, Token-2022 mints); compared with the Lean models of WP/Model/Setup.lean by result code name and created values (theorems Setup.init_config_sound, init_fee_tier_sound, init_adaptive_fee_tier_sound, init_reward_sound, token_badge_sound, delete_badge_sound, config_extension_sound, init_pool_v1_sound) and independent oracles on what was created; xinitaf: initialize_pool_with_adaptive_fee through the REAL entrypoint (whirlpool AND Oracle created by Anchor's init, vaults by the real token programs) from an adaptive-fee tier that is permissioned or not, carries valid or invalid constants, with the tier's authority signing / a stranger signing / nobody signing, a trade-enable time absent / now / up to and beyond 72 h ahead / up to and beyond 30 s back, and everything xinit varies; compared with the Lean model `initializePoolWithAdaptiveFee` (result code by name, rates, price, tick, flag, recorded trade-enable time; theorem init_pool_af_sound) and independent oracles (constants validity re-implemented, Oracle contents, authority, time window); xinit: initialize_pool_v2 executed through the program's REAL entrypoint (whirlpool account created by Anchor's init, both vaults by the system program and the REAL SPL Token / Token-2022 processors): mint key order canonical / swapped / same mint twice, price inside / at / outside the bounds, fee tier of this or another spacing with fee rate and config protocol fee rate inside / outside their maxima, each mint SPL or Token-2022 (incl. the native mint) with or without freeze authority and one of 13 extension sets built by the real Token-2022 crate, and the badge slot holding nothing / the badge / another config's badge / another config's data at the badge address / the badge under a foreign owner / the badge with the non-transferable attribute; compared with the Lean model `initializePoolV2` (result code by name, fee rates, price, tick, non-transferable flag; theorem init_pool_v2_sound) and an independent walk of the published admission table; xadm: 19 settings instructions (fee / protocol fee rates of pools, fee tiers and adaptive fee tiers, every set-authority instruction, adaptive-fee constants, config feature flag, config-extension and token-badge settings) executed through the program's REAL entrypoint on a world of two configs with different authorities: everything right / authority not signing / a stranger signing / the other config's authority with this config's target account or another role's authority / value out of bounds / target account of the other config; the op line carries the environment read from the real accounts, the Lean model answers with `accepts` on the REGENERATED account table (acceptsB_iff) and the setter's bound, so the translated tables and the semantics given to Signer / address / has_one / constraint are compared with Anchor's generated validation; oracle: only the all-right variant may succeed, then only the target account changes AND the value stored is the value asked for (rates of pools / tiers / config; the adaptive-fee constants that result from a PARTIAL set_adaptive_fee_constants - each argument optional -, with the variables reset; an unchanged set refused); mint: is_supported_token_mint on synthesized SPL / Token-2022 mint accounts (real packed base state; TLV with 0-4 entries drawn from supported, badge-gated, "
